@@ -111,6 +111,10 @@ def run(prog: Program, rep, tier: str) -> None:
     clipped_rule(prog, rep)
     c15.clamp(prog, rep)
     start_is_safe(prog, rep)
+    # slack k starts inside the bounds of slack k: same row index in c(x0), lower and upper bound, and in the bounds of the internal problem
+    from . import c04
+    from .c01 import _SubReport
+    c04.slack_embedding(prog, _SubReport(rep, keep=("slack-start", "slack-bounds", "slack-layout")))
 
 
 def box_safe(prog: Program, fi: FuncInfo, ff, si, x: ast.AST, prob: str, raw: ast.AST):
